@@ -804,6 +804,9 @@ class TT():
             result = dense_matvec(self.cores, other)
             return result
 
+        elif not isinstance(other, TT):
+            raise InvalidArguments("Wrong arguments.")
+
         elif self.__is_ttm and other.is_ttm == False:
             # matrix-vector multiplication
             if self.__N != other.N:
